@@ -7,6 +7,8 @@ use std::io::Read;
 pub struct ChunkedReader {
     /// every `interrupt`-th call fails with ErrorKind::Interrupted first (0 = never); callers must retry such a read
     pub interrupt: usize,
+    /// once `pos` has reached this offset every read fails with a hard error (never EOF)
+    pub fail_at: Option<usize>,
     calls: usize,
     data: Vec<u8>,
     pos: usize,
@@ -17,18 +19,22 @@ pub struct ChunkedReader {
 }
 impl ChunkedReader {
     pub fn new(data: Vec<u8>, sizes: Vec<usize>, tail: usize) -> Self {
-        ChunkedReader { interrupt: 0, calls: 0, data, pos: 0, sizes, i: 0, tail, served: vec![] }
+        ChunkedReader { interrupt: 0, fail_at: None, calls: 0, data, pos: 0, sizes, i: 0, tail, served: vec![] }
     }
 }
 impl Read for ChunkedReader {
     fn read(&mut self, buf: &mut [u8]) -> std::io::Result<usize> {
+        if let Some(f) = self.fail_at {
+            if self.pos >= f && !buf.is_empty() { return Err(std::io::Error::new(std::io::ErrorKind::Other, "device error")); }
+        }
         let rem = self.data.len() - self.pos;
         if rem == 0 || buf.is_empty() { return Ok(0); }
         self.calls += 1;
         if self.interrupt > 0 && self.calls % self.interrupt == 0 { return Err(std::io::Error::from(std::io::ErrorKind::Interrupted)); }
         let k = if self.i < self.sizes.len() { self.sizes[self.i] } else { self.tail };
         self.i += 1;
-        let n = k.max(1).min(buf.len()).min(rem);
+        let mut n = k.max(1).min(buf.len()).min(rem);
+        if let Some(f) = self.fail_at { n = n.min(f - self.pos); }
         buf[..n].copy_from_slice(&self.data[self.pos..self.pos + n]);
         self.pos += n;
         self.served.push(n);
@@ -92,9 +98,25 @@ fn decode_event(bytes: &[u8], sizes: &[usize], valid: bool, em: &mut Emitter) {
         let mut c2 = ChunkedReader::new(bytes.to_vec(), sizes.to_vec(), 5); c2.interrupt = k;
         let iri = sourcemap::is_sourcemap(c2);
         let is = sourcemap::is_sourcemap_slice(bytes);
+        // a source that FAILS (a hard error, not end of input) before the last byte was delivered: at the first byte, in
+        // the middle, at the last byte -- a map must never come out of an incomplete stream
+        let mut rf = vec![];
+        let mut irf = vec![];
+        let (mut pfx, mut ipfx) = (vec![], vec![]);
+        if !bytes.is_empty() {
+            for at in [0usize, bytes.len() / 2, bytes.len() - 1] {
+                let mut c = ChunkedReader::new(bytes.to_vec(), sizes.to_vec(), 8192); c.fail_at = Some(at);
+                rf.push(outcome(sourcemap::decode(c))["k"].clone());
+                let mut c = ChunkedReader::new(bytes.to_vec(), sizes.to_vec(), 8192); c.fail_at = Some(at);
+                irf.push(json!(sourcemap::is_sourcemap(c)));
+                // what the bytes delivered before the failure are, read as a slice
+                pfx.push(outcome(sourcemap::decode_slice(&bytes[..at]))["k"].clone());
+                ipfx.push(json!(sourcemap::is_sourcemap_slice(&bytes[..at])));
+            }
+        }
         let url = format!("data:application/json;base64,{}", data_encoding::BASE64.encode(bytes));
         let du = outcome(sourcemap::decode_data_url(&url));
-        json!({"k": "ok", "reader": r, "slice": s, "is_reader": ir, "is_slice": is, "dataurl": du, "reader_int": ri, "is_reader_int": iri})
+        json!({"k": "ok", "reader": r, "slice": s, "is_reader": ir, "is_slice": is, "dataurl": du, "reader_int": ri, "is_reader_int": iri, "reader_fail": rf, "is_reader_fail": irf, "prefix_slice": pfx, "is_prefix_slice": ipfx})
     });
     em.emit("decode", json!({"bytes": bytes, "sizes": sizes, "valid": valid}), out);
 }
